@@ -369,4 +369,30 @@ CHECKS = {
             "the specifiers '.' and '..' themselves and '..' climbing above a non-absolute importer are left open by the statement and are not judged",
         ],
     },
+    "C20": {
+        "engines": {"quick": ["native"], "thorough": ["native"]},
+        "level": "exploration",
+        "rule": "programs with a planted fault at a generator-known position: 32 runtime fault kinds (property of undefined/null, call "
+                "of a non-function, undeclared identifier, TDZ, assignment to const, new of a non-constructor, bad in/instanceof operand, "
+                "non-iterable in for-of / destructuring, native Range/Type/Syntax errors, faults inside templates, arguments, literals, "
+                "conditions, loops, try/finally, switch, return) and 20 syntax faults (an impossible token in expressions, parameter lists, "
+                "class bodies, object literals, template substitutions, type annotations, imports); the runtime fault sits at the top level "
+                "or at the end of a call chain of depth 1..12 built from 11 trampolined link kinds (declarations, function expressions, "
+                "named function expressions, arrows with block and expression bodies, object / class / static methods, constructors, "
+                "closures, bound functions) and 6 native-mediated ones, spread over 1..3 modules; each program is rendered under 15 layouts "
+                "(one line, one token per line, random breaks, block and line comments, blank lines, tabs, CRLF, CR-only, LS/PS, wide "
+                "characters in comments and in strings on the fault's line, a multi-line template before the fault, a leading comment "
+                "block). A case is non-trivial when the run failed with an error that carries a location; cases are distinct by construction",
+        "exhaustive": "fault kind x layout x {script, module} x depth {0,1,3}; all ordered pairs of trampolined link kinds x layout x {1,2} modules; syntax fault x layout x {entry, imported module}",
+        "floor": {"quick": 5000, "thorough": 8000},
+        "technique": "runtime monitoring: generator-known source map (marks carried through a layout engine) as the oracle for reported "
+                     "positions, frame lists, function names and files of failing runs",
+        "level_text": "Every reported (file, line, column) must lie inside the marked offending expression of its frame (the planted "
+                      "fault for the innermost frame, the active call expression for every caller, the bad token for syntax errors), the "
+                      "frame list must be exactly the active calls innermost first ending with the top-level frame, and every frame must "
+                      "carry the name of its function — under every layout.",
+        "level_note": "columns are compared in characters (tsrun's unit); errors that carry no location (values thrown by the program) are "
+                      "not judged; the layouts do not reflow inside tokens",
+        "assumptions": ["the mark positions computed by the layout engine follow ECMAScript line terminators (LF, CR, CRLF, LS, PS) and 1-based character columns"],
+    },
 }
